@@ -230,9 +230,10 @@ class Name(_LeafWithoutNewlines):
                 return node.parent  # The try_stmt.
             return None
 
-        if type_ == 'argument' and node.children[1] == ':=' \
-                and self is node.children[0]:
-            # An assignment expression that is directly a call argument.
+        if type_ in ('argument', 'subscript', 'dictorsetmaker') \
+                and self.get_next_sibling() == ':=':
+            # An assignment expression without parentheses, which is not a
+            # node of its own in a call argument, a subscript or a set.
             return node
 
         while node is not None:
